@@ -1241,3 +1241,343 @@ func c01FindPath(p *Prog, q PathQuery) []string {
 	}
 	return out
 }
+
+// ---- key functions of a shared ordered-insertion routine (C01.3, sibling agreement) ----
+
+// fieldProjection: fn is a function of exactly one parameter, without free variables, whose whole body is
+// `return p.f1.f2...fk` (k >= 1): one block, nothing but the field selections / loads of that chain and the return
+// of the value loaded last. Such a function has no effect and its result IS that field of its argument, so a call
+// of it with argument a stands for the term a.f1...fk. Anything else (a computation on the field, a test, a call, a
+// captured variable, a second result) is not a projection and the call stays a call.
+func fieldProjection(fn *ssa.Function) (path []*types.Var, ok bool) {
+	if fn == nil || len(fn.Blocks) != 1 || len(fn.FreeVars) != 0 || len(fn.Params) != 1 || fn.Signature.Results().Len() != 1 {
+		return nil, false
+	}
+	var cur ssa.Value = fn.Params[0]
+	for _, in := range fn.Blocks[0].Instrs {
+		switch x := in.(type) {
+		case *ssa.DebugRef:
+		case *ssa.FieldAddr:
+			if x.X != cur {
+				return nil, false
+			}
+			path = append(path, fieldOf(x.X.Type(), x.Field))
+			cur = x
+		case *ssa.Field:
+			if x.X != cur {
+				return nil, false
+			}
+			path = append(path, fieldOf(x.X.Type(), x.Field))
+			cur = x
+		case *ssa.UnOp:
+			if _, isFA := x.X.(*ssa.FieldAddr); x.Op != token.MUL || x.X != cur || !isFA {
+				return nil, false
+			}
+			cur = x
+		case *ssa.Return:
+			if _, isFA := cur.(*ssa.FieldAddr); isFA || len(path) == 0 || len(x.Results) != 1 || x.Results[0] != cur {
+				return nil, false
+			}
+			return path, true
+		default:
+			return nil, false
+		}
+	}
+	return nil, false
+}
+
+// projectionCall: c is a static call of a field projection; the fields selected from its only argument.
+func projectionCall(c *ssa.CallCommon) ([]*types.Var, bool) {
+	if c == nil || c.IsInvoke() || len(c.Args) != 1 {
+		return nil, false
+	}
+	return fieldProjection(c.StaticCallee())
+}
+
+// resolveProjections rewrites every call of a field projection inside t into the field term it stands for
+// (`key(x)` with `key = func(g *Gene) int64 { return g.InnovationNum }` becomes `x.InnovationNum`). The routine
+// that two helpers share and parameterise by such a key function then reads, per helper, like the routine written
+// out for that key.
+func resolveProjections(t *Term) *Term {
+	if t == nil {
+		return nil
+	}
+	if t.Op == "call" && len(t.Args) == 1 {
+		if c, isCall := t.V.(*ssa.Call); isCall {
+			if path, ok := projectionCall(&c.Call); ok {
+				cur := resolveProjections(t.Args[0])
+				for _, f := range path {
+					cur = &Term{Op: "field", Name: f.Name(), Obj: f, Args: []*Term{cur}}
+				}
+				return cur
+			}
+		}
+	}
+	if len(t.Args) == 0 {
+		return t
+	}
+	cp := *t
+	cp.Args = make([]*Term, len(t.Args))
+	for i, a := range t.Args {
+		cp.Args[i] = resolveProjections(a)
+	}
+	return &cp
+}
+
+// ---- the decision a descending split-index scan takes (C01.3) ----
+
+// c01SplitDecision: the ordered-insertion helpers find the split index by walking a cursor i down the (ascending)
+// list and comparing the new element's key k with the key of list[i]. Whatever the spelling (one routine per
+// helper, or one routine shared by both and parameterised by a key function - where the sibling comparison says
+// nothing, because both helpers are the same instructions), each way out of one step of that walk has to be
+// justified by what the comparisons on that path established about k and key(list[i]):
+//
+//	going on to i-1              only if k <= key(list[i])   (everything from i upwards stays above the new element)
+//	leaving with split = i+1     only if k >= key(list[i])   (the new element goes right behind list[i])
+//	leaving with split = i       only if k == key(list[i])   (list[i-1] has not been looked at: only equality places it)
+//	leaving with split = i+c, c other than 0 and 1: never
+//
+// Leaving because the cursor passed the beginning of the list is not a decision about keys and is not judged here
+// (scan-bound is the rule for it). The facts are read per acyclic path of one iteration (so `a || b` conditions and
+// switch spellings are the paths they compile to), as the comparison that HOLDS on the path (CmpFact), with the
+// operands recognised as field chains on the new element resp. on list[cursor] (calls of pure key projections
+// resolved). The rule makes no claim when the helper has no descending cursor, when the walk compares anything but
+// list[cursor] (a cursor that runs one ahead, a binary search), or when the split index is not the cursor plus a
+// constant at the loop's exit: those shapes are left to the other obligations of C01.3.
+func (r *Run) c01SplitDecision() {
+	p := r.P
+	const lt, eq, gt = 1, 2, 4
+	relOf := map[token.Token]int{token.EQL: eq, token.NEQ: lt | gt, token.LSS: lt, token.LEQ: lt | eq, token.GTR: gt, token.GEQ: gt | eq}
+	relName := func(m int) string {
+		switch m {
+		case lt:
+			return "k < key(list[i])"
+		case eq:
+			return "k == key(list[i])"
+		case gt:
+			return "k > key(list[i])"
+		case lt | eq:
+			return "k <= key(list[i])"
+		case gt | eq:
+			return "k >= key(list[i])"
+		case lt | gt:
+			return "k != key(list[i])"
+		case 0:
+			return "a contradiction"
+		}
+		return "nothing"
+	}
+	for _, name := range []string{"geneInsert", "nodeInsert"} {
+		fn := p.Func(PkgG, name)
+		tm := NewTermer(fn)
+		judged, claims := 0, 0
+		ok, why := true, ""
+		var where []string
+		// the split values: bounds of the slices taken of the list parameter
+		var splits []ssa.Value
+		Instrs(fn, func(_ *ssa.BasicBlock, _ int, in ssa.Instruction) {
+			if sl, isSl := in.(*ssa.Slice); isSl && isParamIdx(tm.Of(sl.X), 0) {
+				for _, b := range []ssa.Value{sl.Low, sl.High} {
+					if b == nil {
+						continue
+					}
+					if _, isK := b.(*ssa.Const); !isK {
+						splits = append(splits, b)
+					}
+				}
+			}
+		})
+		for _, l := range Loops(fn) {
+			for _, cur := range HeaderPhis(l) {
+				desc := false
+				for i, e := range cur.Edges {
+					if !l.Blocks[l.Header.Preds[i]] {
+						continue
+					}
+					if off, isC := c01CursorOffset(e, cur); isC && off == -1 {
+						desc = true
+					}
+				}
+				if !desc {
+					continue
+				}
+				// side of a comparison operand: 1 key of the new element, 2 the same key of list[cursor], 3 a key of another element
+				side := func(v ssa.Value) (int, string) {
+					base, path := resolveProjections(tm.Of(v)).FieldPath()
+					if len(path) == 0 || base == nil {
+						return 0, ""
+					}
+					k := strings.Join(path, ".")
+					if isParamIdx(base, 1) {
+						return 1, k
+					}
+					if base.Op == "elem" && len(base.Args) == 2 && isParamIdx(base.Args[0], 0) {
+						if base.Args[1].V == ssa.Value(cur) {
+							return 2, k
+						}
+						return 3, k
+					}
+					return 0, ""
+				}
+				// what a branch outcome says about (k, key(list[cursor])): mask of the orderings it leaves possible;
+				// other reports a key comparison with a different element
+				fact := func(g Guard) (mask int, isKey, other bool) {
+					x, y, op, okF := CmpFact(g.Cond, g.True)
+					if !okF {
+						return 0, false, false
+					}
+					sx, kx := side(x)
+					sy, ky := side(y)
+					switch {
+					case sx == 1 && sy == 2 && kx == ky:
+						return relOf[op], true, false
+					case sx == 2 && sy == 1 && kx == ky:
+						m := relOf[op]
+						return m&eq | (m&lt)<<2 | (m&gt)>>2, true, false
+					case (sx == 1 && sy == 3) || (sx == 3 && sy == 1):
+						return 0, false, true
+					}
+					return 0, false, false
+				}
+				paths, complete := EnumIterPaths(fn, l, 400)
+				r.PathsExplored += len(paths)
+				nKey, foreign := 0, false
+				for _, ip := range paths {
+					for _, g := range ip.Conds {
+						if !l.Blocks[g.At] {
+							continue
+						}
+						_, isKey, other := fact(g)
+						if isKey {
+							nKey++
+						}
+						foreign = foreign || other
+					}
+				}
+				if nKey == 0 || foreign || !complete {
+					continue // not a walk that compares the new key with list[cursor]: no claim
+				}
+				judged++
+				for _, ip := range paths {
+					rel := lt | eq | gt
+					exhausted := false
+					for _, g := range ip.Conds {
+						if !l.Blocks[g.At] {
+							continue
+						}
+						if m, isKey, _ := fact(g); isKey {
+							rel &= m
+						}
+						if x, y, op, okF := CmpFact(g.Cond, g.True); okF && x == ssa.Value(cur) {
+							if k, isK := y.(*ssa.Const); isK && k.Value != nil && k.Value.Kind() == constant.Int {
+								c := k.Int64()
+								if (op == token.LSS && c <= 0) || (op == token.LEQ && c < 0) || (op == token.EQL && c < 0) {
+									exhausted = true
+								}
+							}
+						}
+					}
+					if exhausted || rel == 0 {
+						continue // the cursor passed the beginning of the list / the path is contradictory
+					}
+					end := ip.End
+					if ip.ExitTo != nil {
+						end = "exit" // an exit block that returns at once is folded into the path as "return"
+					}
+					switch end {
+					case "back":
+						nv := ip.NextValue(cur)
+						if off, isC := c01CursorOffset(nv, cur); !isC || off != -1 {
+							continue
+						}
+						claims++
+						if rel&gt != 0 {
+							ok = false
+							why = "the walk goes on below position i although only " + relName(rel) + " is established (it must be k <= key(list[i])): the new element ends up below an element with a smaller key"
+							where = ip.Describe(p)
+						}
+					case "exit":
+						// the blocks a `break` leaves the loop through are not part of the natural loop: follow the
+						// straight line behind the exit edge to where the split index is merged
+						ext := &IterPath{Blocks: append([]*ssa.BasicBlock{}, ip.Blocks...), End: "exit"}
+						for b, n := ip.ExitTo, 0; len(b.Succs) == 1 && !l.Blocks[b.Succs[0]] && n < 8; n++ {
+							b = b.Succs[0]
+							ext.Blocks = append(ext.Blocks, b)
+						}
+						for _, s := range splits {
+							off, isC := c01CursorOffset(ext.Resolve(s), cur)
+							if !isC {
+								continue
+							}
+							claims++
+							switch {
+							case off == 1 && rel&lt != 0:
+								ok = false
+								why = "the split index becomes i+1 although only " + relName(rel) + " is established (it must be k >= key(list[i])): the new element is put behind an element with a greater key"
+								where = ip.Describe(p)
+							case off == 0 && rel != eq:
+								ok = false
+								why = "the split index becomes i although only " + relName(rel) + " is established (it must be k == key(list[i]); list[i-1] was not examined)"
+								where = ip.Describe(p)
+							case off != 0 && off != 1:
+								ok = false
+								why = fmt.Sprintf("the split index becomes i%+d, a position the comparison with list[i] says nothing about", off)
+								where = ip.Describe(p)
+							}
+						}
+					}
+				}
+			}
+		}
+		if judged == 0 || claims == 0 {
+			r.OK(name+".split-decision", p.Pos(fn.Pos()), "no descending walk that compares the new key with list[cursor] in this helper (no claim)")
+			continue
+		}
+		r.Check(ok, name+".split-decision", p.Pos(fn.Pos()), fmt.Sprintf("every way out of a step of the split-index walk is justified by the key comparison on its path (%d decisions)", claims),
+			name+": "+why+"; the list is no longer ascending", where...)
+	}
+}
+
+// c01CursorOffset: v is cur + c for an integer constant c (cur itself: 0), through chains of additions and
+// subtractions of constants.
+func c01CursorOffset(v ssa.Value, cur *ssa.Phi) (int64, bool) {
+	var off int64
+	for depth := 0; depth < 8 && v != nil; depth++ {
+		if v == ssa.Value(cur) {
+			return off, true
+		}
+		b, isB := v.(*ssa.BinOp)
+		if !isB {
+			return 0, false
+		}
+		kOf := func(x ssa.Value) (int64, bool) {
+			k, isK := x.(*ssa.Const)
+			if !isK || k.Value == nil || k.Value.Kind() != constant.Int {
+				return 0, false
+			}
+			return k.Int64(), true
+		}
+		switch b.Op {
+		case token.ADD:
+			if k, isK := kOf(b.Y); isK {
+				off += k
+				v = b.X
+			} else if k, isK := kOf(b.X); isK {
+				off += k
+				v = b.Y
+			} else {
+				return 0, false
+			}
+		case token.SUB:
+			k, isK := kOf(b.Y)
+			if !isK {
+				return 0, false
+			}
+			off -= k
+			v = b.X
+		default:
+			return 0, false
+		}
+	}
+	return 0, false
+}
